@@ -1,5 +1,7 @@
 import PEval.Lemmas.Transform
+import PEval.Lemmas.TransformMatrix
 import PEval.Properties.C20
+import Mathlib.Data.Rat.Sqrt
 /-!
 # C18 — coordinate transforms compose and invert consistently
 
@@ -526,5 +528,507 @@ example : dictContains [exA, exB] (.str "CAM_FRONT") (.member "BASE_LINK") = .ok
 example : dictGet [exA] (.str "bogus") (.str "map") = .error "ValueError" := by decide +kernel
 example : (TArg.pos ⟨1, 0, 0⟩).malformed = none := rfl
 example : ("bogus" : String).toLower ∉ values Gen.frameID := by decide +kernel
+
+/-! # Matrix input and the re-extracted quaternion: orientation results up to sign (audit C18-1)
+
+`PEval.Model.TransformMatrix`.  Python determines an orientation result of `dot`, `inv`, `transform(position, rotation)`,
+`from_matrix` and of a constructor fed with a rotation matrix only up to the sign of the quaternion (`Quaternion(matrix=R)`).
+`q.SignEq q'` is that relation; for unit quaternions it is the same as `rotMat q = rotMat q'` (`rotMat_eq_iff`), which is
+what the harness compares.  `ExtractOK ex` is the contract of the extraction (ONE named hypothesis; pyquaternion is in the
+trusted base) and every call site below takes its own extraction function.  Exact equality is kept where the code keeps
+the quaternion it was given (`mk_spelling`: constructor with a quaternion; `lookup_identity`: X-to-X returns the input
+object; `get`/`[]`: the registered object). -/
+
+/-- equality up to sign is an equivalence relation, compatible with product and conjugate, and preserves the norm -/
+theorem signEq_equivalence :
+    (∀ q : Quat, q.SignEq q) ∧ (∀ p q : Quat, p.SignEq q → q.SignEq p) ∧
+    (∀ p q r : Quat, p.SignEq q → q.SignEq r → p.SignEq r) ∧ (∀ q : Quat, (-q).SignEq q) ∧
+    (∀ p p' q q' : Quat, p.SignEq p' → q.SignEq q' → (p * q).SignEq (p' * q')) ∧
+    (∀ p q : Quat, p.SignEq q → p.conj.SignEq q.conj) ∧ (∀ p q : Quat, p.SignEq q → p.normSq = q.normSq) :=
+  ⟨Quat.SignEq.refl, fun _ _ h => h.symm, fun _ _ _ h1 h2 => h1.trans h2, Quat.signEq_neg,
+    fun _ _ _ _ h1 h2 => h1.mul h2, fun _ _ h => h.conj, fun _ _ h => h.normSq⟩
+
+/-- `rotation_matrix(q) = rotation_matrix(q')` exactly when `q' = ±q` (unit quaternions): the class `{q, −q}` IS the rotation -/
+theorem rotMat_eq_iff {p q : Quat} (hp : p.normSq = 1) (hq : q.normSq = 1) : rotMat p = rotMat q ↔ p.SignEq q :=
+  rotMat_eq_iff_signEq hp hq
+
+/-- matrix input: whatever representative the matrix was written down from, the extraction returns one of `q`, `−q` -/
+theorem extract_returns_representative {ex : Mat3 → Quat} (hex : ExtractOK ex) {q : Quat} (hq : q.normSq = 1) :
+    (ex (rotMat q)).SignEq q ∧ (ex (rotMat (-q))).SignEq q ∧ (ex (rotMat q)).normSq = 1 := by
+  refine ⟨hex.signEq hq, ?_, (hex q hq).1⟩
+  rw [Transform.rotMat_neg]; exact hex.signEq hq
+
+/-- `HomogeneousMatrix(position, R(q), src, dst)`: the matrix is the one of `(position, q)`, the quaternion is `±q` -/
+theorem ofMat3_signEq {ex : Mat3 → Quat} (hex : ExtractOK ex) (pos : V3) {q : Quat} (hq : q.normSq = 1) (s d : String) :
+    (HM.ofMat3 ex pos (rotMat q) s d).SignEq ⟨pos, q, s, d⟩ ∧ toMat (HM.ofMat3 ex pos (rotMat q) s d) = matOf pos q :=
+  ⟨⟨rfl, hex.signEq hq, rfl, rfl⟩, matOf_congr pos (hex q hq).2⟩
+
+/-- `HomogeneousMatrix.from_matrix(M, src, dst)` for the 4×4 matrix of `(position, q)` -/
+theorem fromMatrix_signEq {ex : Mat3 → Quat} (hex : ExtractOK ex) (pos : V3) {q : Quat} (hq : q.normSq = 1) (s d : String) :
+    (HM.fromMatrix ex (matOf pos q) s d).SignEq ⟨pos, q, s, d⟩ ∧ toMat (HM.fromMatrix ex (matOf pos q) s d) = matOf pos q :=
+  ⟨⟨rfl, hex.signEq hq, rfl, rfl⟩, matOf_congr pos (hex q hq).2⟩
+
+/-- `dot` as the code computes it (matrix product, then extraction) is rejected in the same cases … -/
+theorem dotX_ok_iff (ex : Mat3 → Quat) (B A : HM) : (∃ C, dotX ex B A = .ok C) ↔ B.src = A.dst := by
+  unfold dotX
+  by_cases h : B.src = A.dst
+  · simp [h]
+  · simp [h]
+
+theorem dotX_mismatch_error (ex : Mat3 → Quat) (B A : HM) (h : B.src ≠ A.dst) : dotX ex B A = .error "ValueError" := by
+  simp [dotX, h]
+
+/-- … and otherwise returns the model's composite up to the sign of the quaternion, with the same `.matrix` -/
+theorem dotX_refines {ex : Mat3 → Quat} (hex : ExtractOK ex) (B A C : HM) (hB : B.rot.normSq = 1) (hA : A.rot.normSq = 1)
+    (h : dot B A = .ok C) : ∃ C', dotX ex B A = .ok C' ∧ C'.SignEq C ∧ C'.rot.normSq = 1 ∧ toMat C' = toMat C := by
+  have hsrc : B.src = A.dst := (dot_ok_iff B A).1 ⟨C, h⟩
+  have hC : C = ⟨rotate B.rot A.pos + B.pos, B.rot * A.rot, A.src, B.dst⟩ := by
+    simp only [dot, hsrc, ne_eq, not_true_eq_false, if_false] at h
+    exact (Except.ok.inj h).symm
+  have hu : (B.rot * A.rot).normSq = 1 := by rw [Quat.normSq_mul, hA, hB]; norm_num
+  have e : matMul (toMat B) (toMat A) = matOf (transformPos B A.pos) (B.rot * A.rot) := matMul_toMat_matOf B A.pos A.rot
+  refine ⟨⟨transformPos B A.pos, ex (rotMat (B.rot * A.rot)), A.src, B.dst⟩, ?_, ?_, (hex _ hu).1, ?_⟩
+  · simp only [dotX, hsrc, ne_eq, not_true_eq_false, if_false, e, extractPR_matOf]
+  · rw [hC]; exact ⟨rfl, hex.signEq hu, rfl, rfl⟩
+  · rw [hC]; exact toMat_congr rfl (hex _ hu).2
+
+/-- `inv` as the code computes it -/
+theorem invX_signEq {ex : Mat3 → Quat} (hex : ExtractOK ex) (A : HM) (hA : A.rot.normSq = 1) :
+    (invX ex A).SignEq (inv A) ∧ (invX ex A).rot.normSq = 1 ∧ toMat (invX ex A) = toMat (inv A) := by
+  have hu : A.rot.conj.normSq = 1 := by rw [Quat.normSq_conj]; exact hA
+  have e : invX ex A = ⟨(inv A).pos, ex (rotMat A.rot.conj), A.dst, A.src⟩ := rfl
+  rw [e]
+  exact ⟨⟨rfl, hex.signEq hu, rfl, rfl⟩, (hex _ hu).1, toMat_congr rfl (hex _ hu).2⟩
+
+/-- `transform(position, rotation)` as the code computes it: the model's pose up to the sign of the quaternion -/
+theorem transformPoseX_poseEq {ex : Mat3 → Quat} (hex : ExtractOK ex) (A : HM) (hA : A.rot.normSq = 1) (p : V3) (r : Quat)
+    (hr : r.normSq = 1) :
+    PoseEq (transformPoseX ex A (p, r)) (transformPose A (p, r)) ∧ (transformPoseX ex A (p, r)).2.normSq = 1 ∧
+      rotMat (transformPoseX ex A (p, r)).2 = rotMat (transformPose A (p, r)).2 := by
+  have hu : (A.rot * r).normSq = 1 := by rw [Quat.normSq_mul, hA, hr]; norm_num
+  have e : transformPoseX ex A (p, r) = (transformPos A p, ex (rotMat (A.rot * r))) := by
+    simp only [transformPoseX, matMul_toMat_matOf, extractPR_matOf]
+  rw [e]
+  exact ⟨⟨rfl, hex.signEq hu⟩, (hex _ hu).1, (hex _ hu).2⟩
+
+/-- … also when the rotation of the pose is handed over as a 3×3 array -/
+theorem transformPoseMatX_poseEq {ex : Mat3 → Quat} (hex : ExtractOK ex) (A : HM) (hA : A.rot.normSq = 1) (p : V3) (r : Quat)
+    (hr : r.normSq = 1) : PoseEq (transformPoseMatX ex A p (rotMat r)) (transformPose A (p, r)) :=
+  (transformPoseX_poseEq hex A hA p r hr).1
+
+/-- the results do not see which representative an input was written with (they are functions of the 4×4 matrices) -/
+theorem X_sign_blind (ex : Mat3 → Quat) {A A' B B' : HM} {r r' : Quat} (p : V3) (hA : A.SignEq A') (hB : B.SignEq B')
+    (hr : r.SignEq r') :
+    transformPoseX ex A (p, r) = transformPoseX ex A' (p, r') ∧ dotX ex B A = dotX ex B' A' ∧ invX ex A = invX ex A' := by
+  have eA := hA.toMat_eq
+  have eB := hB.toMat_eq
+  refine ⟨?_, ?_, ?_⟩
+  · simp only [transformPoseX, eA, matOf_congr p hr.rotMat_eq]
+  · simp only [dotX, eA, eB, hA.2.2.1, hA.2.2.2, hB.2.2.1, hB.2.2.2]
+  · have hi : (inv A).SignEq (inv A') := by
+      refine ⟨?_, hA.2.1.conj, hA.2.2.2, hA.2.2.1⟩
+      simp only [inv, rotate, hA.2.1.conj.rotMat_eq, hA.1]
+    simp only [invX, hi.toMat_eq, hA.2.2.1, hA.2.2.2]
+
+/-- transforming a pose agrees with multiplying the homogeneous matrices — exactly, as matrices -/
+theorem transform_eq_matmul_X {ex : Mat3 → Quat} (hex : ExtractOK ex) (A : HM) (hA : A.rot.normSq = 1) (p : V3) (r : Quat)
+    (hr : r.normSq = 1) :
+    matOf (transformPoseX ex A (p, r)).1 (transformPoseX ex A (p, r)).2 = matMul (toMat A) (matOf p r) := by
+  have h := transformPoseX_poseEq hex A hA p r hr
+  rw [h.1.1, matOf_congr _ h.2.2]
+  exact transform_eq_matmul A p r
+
+/-- transform, then the inverse transform — three independent extractions: the original position, the original
+orientation up to sign -/
+theorem inv_transform_X {ex1 ex2 ex3 : Mat3 → Quat} (h1 : ExtractOK ex1) (h2 : ExtractOK ex2) (h3 : ExtractOK ex3)
+    (A : HM) (hA : A.rot.normSq = 1) (p : V3) (r : Quat) (hr : r.normSq = 1) :
+    PoseEq (transformPoseX ex3 (invX ex2 A) (transformPoseX ex1 A (p, r))) (p, r) := by
+  have t1 := transformPoseX_poseEq h1 A hA p r hr
+  have i2 := invX_signEq h2 A hA
+  have e : transformPoseX ex3 (invX ex2 A) (transformPoseX ex1 A (p, r))
+      = transformPoseX ex3 (inv A) (transformPose A (p, r)) := by
+    have := (X_sign_blind ex3 (transformPose A (p, r)).1 i2.1 (HM.SignEq.refl A) t1.1.2).1
+    exact (congrArg (transformPoseX ex3 (invX ex2 A))
+      (Prod.ext t1.1.1 rfl : transformPoseX ex1 A (p, r) = ((transformPose A (p, r)).1, (transformPoseX ex1 A (p, r)).2))).trans
+      this
+  rw [e]
+  have hu : (transformPose A (p, r)).2.normSq = 1 := by
+    simp only [transformPose, Quat.normSq_mul, hA, hr]; norm_num
+  have t3 := (transformPoseX_poseEq h3 (inv A) (inv_unit A hA) (transformPose A (p, r)).1 (transformPose A (p, r)).2 hu).1
+  rw [show ((transformPose A (p, r)).1, (transformPose A (p, r)).2) = transformPose A (p, r) from rfl,
+    inv_transform A hA p r] at t3
+  exact t3
+
+/-- the inverse transform, then the transform -/
+theorem transform_inv_X {ex1 ex2 ex3 : Mat3 → Quat} (h1 : ExtractOK ex1) (h2 : ExtractOK ex2) (h3 : ExtractOK ex3)
+    (A : HM) (hA : A.rot.normSq = 1) (p : V3) (r : Quat) (hr : r.normSq = 1) :
+    PoseEq (transformPoseX ex3 A (transformPoseX ex2 (invX ex1 A) (p, r))) (p, r) := by
+  have i1 := invX_signEq h1 A hA
+  have t2 := transformPoseX_poseEq h2 (inv A) (inv_unit A hA) p r hr
+  have e2 : transformPoseX ex2 (invX ex1 A) (p, r) = transformPoseX ex2 (inv A) (p, r) :=
+    (X_sign_blind ex2 p i1.1 (HM.SignEq.refl A) (Quat.SignEq.refl r)).1
+  rw [e2]
+  have e : transformPoseX ex3 A (transformPoseX ex2 (inv A) (p, r)) = transformPoseX ex3 A (transformPose (inv A) (p, r)) := by
+    have := (X_sign_blind ex3 (transformPose (inv A) (p, r)).1 (HM.SignEq.refl A) (HM.SignEq.refl A) t2.1.2).1
+    exact (congrArg (transformPoseX ex3 A)
+      (Prod.ext t2.1.1 rfl :
+        transformPoseX ex2 (inv A) (p, r) = ((transformPose (inv A) (p, r)).1, (transformPoseX ex2 (inv A) (p, r)).2))).trans
+      this
+  rw [e]
+  have hu : (transformPose (inv A) (p, r)).2.normSq = 1 := by
+    simp only [transformPose, Quat.normSq_mul, inv_unit A hA, hr]; norm_num
+  have t3 := (transformPoseX_poseEq h3 A hA (transformPose (inv A) (p, r)).1 (transformPose (inv A) (p, r)).2 hu).1
+  rw [show ((transformPose (inv A) (p, r)).1, (transformPose (inv A) (p, r)).2) = transformPose (inv A) (p, r) from rfl,
+    transform_inv A hA p r] at t3
+  exact t3
+
+/-- inverting twice gives the matrix back, the quaternion up to sign -/
+theorem inv_inv_X {ex1 ex2 : Mat3 → Quat} (h1 : ExtractOK ex1) (h2 : ExtractOK ex2) (A : HM) (hA : A.rot.normSq = 1) :
+    (invX ex2 (invX ex1 A)).SignEq A := by
+  have i1 := invX_signEq h1 A hA
+  have e : invX ex2 (invX ex1 A) = invX ex2 (inv A) :=
+    (X_sign_blind ex2 ⟨0, 0, 0⟩ i1.1 (HM.SignEq.refl A) (Quat.SignEq.refl Quat.one)).2.2
+  rw [e]
+  have i2 := (invX_signEq h2 (inv A) (inv_unit A hA)).1
+  rw [inv_inv A hA] at i2
+  exact i2
+
+/-- composing A-to-B with B-to-C exists, is labelled A-to-C, stays rigid, and transforms like the two steps — each of the four
+calls with its own extraction; orientations up to sign -/
+theorem dot_two_steps_X {ex1 ex2 ex3 ex4 : Mat3 → Quat} (h1 : ExtractOK ex1) (h2 : ExtractOK ex2) (h3 : ExtractOK ex3)
+    (h4 : ExtractOK ex4) (B A : HM) (hB : B.rot.normSq = 1) (hA : A.rot.normSq = 1) (h : B.src = A.dst) :
+    ∃ C, dotX ex1 B A = .ok C ∧ C.src = A.src ∧ C.dst = B.dst ∧ C.rot.normSq = 1 ∧
+      ∀ p r, r.normSq = 1 →
+        PoseEq (transformPoseX ex2 C (p, r)) (transformPoseX ex3 B (transformPoseX ex4 A (p, r))) := by
+  obtain ⟨C0, hC0, hpose, _⟩ := dot_two_steps B A h
+  obtain ⟨C, hC, hCs, hCu, _⟩ := dotX_refines h1 B A C0 hB hA hC0
+  have hfr := dot_frames B A C0 hC0
+  have hC0u := dot_unit B A C0 hB hA hC0
+  refine ⟨C, hC, by rw [hCs.2.2.1]; exact hfr.1, by rw [hCs.2.2.2]; exact hfr.2, hCu, ?_⟩
+  intro p r hr
+  have t4 := transformPoseX_poseEq h4 A hA p r hr
+  have hu : (transformPose A (p, r)).2.normSq = 1 := by
+    simp only [transformPose, Quat.normSq_mul, hA, hr]; norm_num
+  -- left side: the model's composite applied to (p, r)
+  have eL : transformPoseX ex2 C (p, r) = transformPoseX ex2 C0 (p, r) :=
+    (X_sign_blind ex2 p hCs (HM.SignEq.refl A) (Quat.SignEq.refl r)).1
+  have tL := (transformPoseX_poseEq h2 C0 hC0u p r hr).1
+  -- right side: the two steps
+  have eR : transformPoseX ex3 B (transformPoseX ex4 A (p, r)) = transformPoseX ex3 B (transformPose A (p, r)) := by
+    have := (X_sign_blind ex3 (transformPose A (p, r)).1 (HM.SignEq.refl B) (HM.SignEq.refl A) t4.1.2).1
+    exact (congrArg (transformPoseX ex3 B)
+      (Prod.ext t4.1.1 rfl : transformPoseX ex4 A (p, r) = ((transformPose A (p, r)).1, (transformPoseX ex4 A (p, r)).2))).trans
+      this
+  have tR := (transformPoseX_poseEq h3 B hB (transformPose A (p, r)).1 (transformPose A (p, r)).2 hu).1
+  rw [eL, eR]
+  refine tL.trans ?_
+  rw [hpose p r]
+  exact tR.symm
+
+/-! ### `transform` and the registry as the code computes them: the model's answer up to the sign of the quaternion -/
+
+theorem TArg.SignEq.refl (x : TArg) : x.SignEq x := by
+  cases x <;> simp only [TArg.SignEq]
+  · exact ⟨trivial, Quat.SignEq.refl _⟩
+  · exact HM.SignEq.refl _
+
+theorem TArg.SignEq.malformed {x x' : TArg} (h : x.SignEq x') : x.malformed = x'.malformed := by
+  cases x <;> cases x' <;> first | rfl | (simp [TArg.SignEq] at h)
+
+theorem transformPos_congr {a a' : HM} (h : a.SignEq a') (p : V3) : transformPos a p = transformPos a' p := by
+  simp only [transformPos, rotate, h.2.1.rotMat_eq, h.1]
+
+/-- `HomogeneousMatrix.transform` with any argument form: same exception, or the model's result up to sign; the matrix and the
+argument may be given by any representative -/
+theorem transformX_refines {ex : Mat3 → Quat} (hex : ExtractOK ex) {a a' : HM} (ha : a.SignEq a') (hu : a'.rot.normSq = 1)
+    {x x' : TArg} (hx : x.SignEq x') (hr : x'.Rigid) : ResSignEq (a.transformX ex x) (a'.transform x') := by
+  cases x <;> cases x' <;> try (simp [TArg.SignEq] at hx; done)
+  case pos.pos p p' =>
+    simp only [TArg.SignEq] at hx
+    subst hx
+    simp only [HM.transformX, HM.transform, ResSignEq, TArg.SignEq]
+    exact transformPos_congr ha p
+  case pose.pose p r p' r' =>
+    simp only [TArg.SignEq] at hx
+    obtain ⟨rfl, hrr⟩ := hx
+    have e := (X_sign_blind ex p ha (HM.SignEq.refl a) hrr).1
+    have t := (transformPoseX_poseEq hex a' hu p r' hr).1
+    simp only [HM.transformX, HM.transform, ResSignEq, TArg.SignEq, e]
+    exact t
+  case mat.mat m m' =>
+    simp only [TArg.SignEq] at hx
+    have e := (X_sign_blind ex ⟨0, 0, 0⟩ ha hx (Quat.SignEq.refl Quat.one)).2.1
+    simp only [HM.transformX, HM.transform, transformHM, e]
+    cases hd : dot m' a' with
+    | error err =>
+      have hne : m'.src ≠ a'.dst := fun h => by
+        obtain ⟨C, hC⟩ := (dot_ok_iff m' a').2 h
+        rw [hC] at hd; cases hd
+      rw [dotX_mismatch_error ex m' a' hne, dot_mismatch_error m' a' hne] at *
+      simp only [Except.map, ResSignEq]
+      cases hd; rfl
+    | ok C =>
+      obtain ⟨C', hC', hs, _⟩ := dotX_refines hex m' a' C hr hu hd
+      rw [hC']
+      simp only [Except.map, ResSignEq, TArg.SignEq]
+      exact hs
+  all_goals
+    simp only [HM.transformX, HM.transform, ResSignEq]
+
+/-- `TransformDict.transform` as the code computes it (`inv()` and `transform` each with their own extraction) gives the model's
+answer — identity, registered matrix, inverse of the reverse entry, `KeyError`, `ValueError` — up to the sign of the quaternion,
+for every registry of rigid motions, every key spelling and every argument form -/
+theorem dictTransformX_refines {exI exT : Mat3 → Quat} (hI : ExtractOK exI) (hT : ExtractOK exT) (d : List HM)
+    (hd : ∀ m ∈ d, m.rot.normSq = 1) (ks kd : Arg) {x x' : TArg} (hx : x.SignEq x') (hr : x'.Rigid) :
+    ResSignEq (dictTransformX exI exT d ks kd x) (dictTransform d ks kd x') := by
+  unfold dictTransformX dictTransform
+  cases hk : transformKey ks kd with
+  | error e => simp only [bind, Except.bind, ResSignEq]
+  | ok k =>
+    simp only [bind, Except.bind]
+    by_cases hkk : k.1 = k.2
+    · have hmal := TArg.SignEq.malformed hx
+      simp only [hkk, if_true, hmal]
+      cases x'.malformed with
+      | some e => simp only [ResSignEq]
+      | none => simp only [pure, Except.pure, ResSignEq]; exact hx
+    · simp only [hkk, if_false]
+      cases h1 : lookup d (k.1, k.2) with
+      | some m =>
+        exact transformX_refines hT (HM.SignEq.refl m) (hd m (lookup_some_key h1).1) hx hr
+      | none =>
+        cases h2 : lookup d (k.2, k.1) with
+        | some m =>
+          have hu := hd m (lookup_some_key h2).1
+          exact transformX_refines hT (invX_signEq hI m hu).1 (inv_unit m hu) hx hr
+        | none => simp only [ResSignEq]
+
+/-- registry round trip as the code computes it: X-to-Y, then Y-to-X on what came back (four independent extractions) returns
+the original position and the original orientation up to sign -/
+theorem registry_roundtrip_X {eI1 eT1 eI2 eT2 : Mat3 → Quat} (h1 : ExtractOK eI1) (h2 : ExtractOK eT1) (h3 : ExtractOK eI2)
+    (h4 : ExtractOK eT2) (d : List HM) (hd : ∀ m ∈ d, m.rot.normSq = 1) (s t : String) (m : HM) (p : V3) (r : Quat)
+    (hr : r.normSq = 1) (hne : s ≠ t) (hm : lookup d (s, t) = some m) (hnone : lookup d (t, s) = none) :
+    ∃ y, dictTransformX eI1 eT1 d (.member s) (.member t) (.pose p r) = .ok y ∧
+      ∃ z, dictTransformX eI2 eT2 d (.member t) (.member s) y = .ok z ∧ z.SignEq (.pose p r) := by
+  have hu := hd m (lookup_some_key hm).1
+  have k1 : transformKey (.member s) (.member t) = .ok (s, t) := rfl
+  have k2 : transformKey (.member t) (.member s) = .ok (t, s) := rfl
+  have e1 : dictTransform d (.member s) (.member t) (.pose p r)
+      = .ok (.pose (transformPose m (p, r)).1 (transformPose m (p, r)).2) := by
+    rw [lookup_direct d _ _ s t m _ k1 hne hm]; rfl
+  have e2 : dictTransform d (.member t) (.member s) (.pose (transformPose m (p, r)).1 (transformPose m (p, r)).2)
+      = .ok (.pose p r) := by
+    rw [lookup_inverse d _ _ t s m _ k2 (Ne.symm hne) hnone hm]
+    have := inv_transform m hu p r
+    simp only [HM.transform]
+    rw [this]
+  have r1 := dictTransformX_refines h1 h2 d hd (.member s) (.member t) (TArg.SignEq.refl (.pose p r)) hr
+  rw [e1] at r1
+  cases hy : dictTransformX eI1 eT1 d (.member s) (.member t) (.pose p r) with
+  | error e => rw [hy] at r1; simp only [ResSignEq] at r1
+  | ok y =>
+    rw [hy] at r1
+    simp only [ResSignEq] at r1
+    have hrig : (TArg.pose (transformPose m (p, r)).1 (transformPose m (p, r)).2).Rigid := by
+      simp only [TArg.Rigid, transformPose, Quat.normSq_mul, hu, hr]; norm_num
+    have r2 := dictTransformX_refines h3 h4 d hd (.member t) (.member s) r1 hrig
+    rw [e2] at r2
+    refine ⟨y, rfl, ?_⟩
+    cases hz : dictTransformX eI2 eT2 d (.member t) (.member s) y with
+    | error e => rw [hz] at r2; simp only [ResSignEq] at r2
+    | ok z => rw [hz] at r2; exact ⟨z, rfl, r2⟩
+
+/-! ### the contract is satisfiable: pyquaternion's own `trace_method`, with an exact rational square root -/
+
+theorem ratSqrt_exact : ∀ a : Rat, 0 ≤ a → Rat.sqrt (a * a) = a :=
+  fun a h => by rw [Rat.sqrt_eq, abs_of_nonneg h]
+
+/-- `trace_method` over `ℚ` (all four branches) satisfies `ExtractOK` -/
+theorem extractTrace_contract : ExtractOK (extractTrace Rat.sqrt) := extractTrace_ok ratSqrt_exact
+
+/-- … and returns `q` or `−q` for every rational unit quaternion `q` -/
+theorem extractTrace_representative {q : Quat} (hq : q.normSq = 1) : (extractTrace Rat.sqrt (rotMat q)).SignEq q :=
+  extractTrace_signEq ratSqrt_exact hq
+
+/-! ### seed C18_G: the closed form `w = √(1 + tr)/2, (x, y, z) = antisymmetric part / 4w` fails the contract exactly on half turns -/
+
+theorem extractG_ok_iff {q : Quat} (hq : q.normSq = 1) :
+    ((extractG Rat.sqrt (rotMat q)).normSq = 1 ∧ rotMat (extractG Rat.sqrt (rotMat q)) = rotMat q) ↔ q.w ≠ 0 := by
+  constructor
+  · rintro ⟨hn, _⟩ hw
+    rw [extractG_half_turn ratSqrt_exact hq hw] at hn
+    simp [Quat.normSq] at hn
+  · intro hw
+    have h := extractG_signEq ratSqrt_exact hq hw
+    exact ⟨by rw [h.normSq]; exact hq, h.rotMat_eq⟩
+
+/-- the half turn about z (yaw π, quaternion `(0, 0, 0, 1)`) and the half turn about the axis `(3/5, 0, 4/5)` -/
+theorem extractG_not_ok : ¬ ExtractOK (extractG Rat.sqrt) := by
+  intro h
+  have hq : (⟨0, 0, 0, 1⟩ : Quat).normSq = 1 := by decide +kernel
+  exact ((extractG_ok_iff hq).1 (h _ hq)) rfl
+
+/-- with the closed form in place of the extraction, `inv()` of an ego pose with yaw π no longer returns the inverse rotation:
+the statement of `invX_signEq` FAILS for the defective variant -/
+theorem invX_G_breaks :
+    let A : HM := ⟨⟨1, 2, 0⟩, ⟨0, 0, 0, 1⟩, "BASE_LINK", "MAP"⟩
+    A.rot.normSq = 1 ∧ ¬ (invX (extractG Rat.sqrt) A).SignEq (inv A) ∧ (invX (extractG Rat.sqrt) A).rot.normSq ≠ 1 := by
+  intro A
+  have hq : (⟨0, 0, 0, -1⟩ : Quat).normSq = 1 := by decide +kernel
+  have hz := extractG_half_turn ratSqrt_exact hq rfl
+  have hc : A.rot.conj = ⟨0, 0, 0, -1⟩ := by decide +kernel
+  have e : (invX (extractG Rat.sqrt) A).rot = ⟨0, 0, 0, 0⟩ := by
+    show extractG Rat.sqrt (rotMat A.rot.conj) = _
+    rw [hc]; exact hz
+  refine ⟨by decide +kernel, ?_, ?_⟩
+  · intro h
+    have := h.2.1.normSq
+    rw [e, show (inv A).rot = A.rot.conj from rfl, hc, hq] at this
+    simp [Quat.normSq] at this
+  · rw [e]; simp [Quat.normSq]
+
+/-! # Chains (audit C18-3): a well-labelled chain folds to `.ok`, and only a well-labelled one -/
+
+theorem chain_ok_iff (A : HM) (steps : List HM) :
+    (∃ C, steps.foldlM (fun acc m => dot m acc) A = .ok C) ↔ WellLabelled A.dst steps := by
+  induction steps generalizing A with
+  | nil => exact ⟨fun _ => trivial, fun _ => ⟨A, rfl⟩⟩
+  | cons m ms ih =>
+    simp only [List.foldlM_cons, WellLabelled]
+    constructor
+    · rintro ⟨C, hC⟩
+      cases hd : dot m A with
+      | error e => rw [hd] at hC; cases hC
+      | ok D =>
+        rw [hd] at hC
+        have hsrc : m.src = A.dst := (dot_ok_iff m A).1 ⟨D, hd⟩
+        have hD := (dot_frames m A D hd).2
+        exact ⟨hsrc, by rw [← hD]; exact (ih D).1 ⟨C, hC⟩⟩
+    · rintro ⟨hsrc, hw⟩
+      obtain ⟨D, hd, _⟩ := dot_two_steps m A hsrc
+      have hD := (dot_frames m A D hd).2
+      rw [hd]
+      exact (ih D).2 (by rw [hD]; exact hw)
+
+/-- the composite of a well-labelled chain exists and is labelled first.src → last.dst -/
+theorem chain_ok (A : HM) (steps : List HM) (h : WellLabelled A.dst steps) :
+    ∃ C, steps.foldlM (fun acc m => dot m acc) A = .ok C ∧ C.src = A.src ∧ C.dst = chainDst A.dst steps := by
+  induction steps generalizing A with
+  | nil => exact ⟨A, rfl, rfl, rfl⟩
+  | cons m ms ih =>
+    obtain ⟨hsrc, hw⟩ := h
+    obtain ⟨D, hd, _⟩ := dot_two_steps m A hsrc
+    have hD := dot_frames m A D hd
+    obtain ⟨C, hC, hs, hdst⟩ := ih D (by rw [hD.2]; exact hw)
+    refine ⟨C, ?_, by rw [hs, hD.1], by rw [hdst, hD.2]; rfl⟩
+    simp only [List.foldlM_cons, hd]
+    exact hC
+
+/-- a chain of rigid motions composes to a rigid motion -/
+theorem chain_unit (A : HM) (steps : List HM) (C : HM) (hA : A.rot.normSq = 1) (hs : ∀ m ∈ steps, m.rot.normSq = 1)
+    (h : steps.foldlM (fun acc m => dot m acc) A = .ok C) : C.rot.normSq = 1 := by
+  induction steps generalizing A with
+  | nil => simp only [List.foldlM_nil] at h; cases h; exact hA
+  | cons m ms ih =>
+    simp only [List.foldlM_cons] at h
+    cases hd : dot m A with
+    | error e => rw [hd] at h; cases h
+    | ok D =>
+      rw [hd] at h
+      exact ih D (dot_unit m A D (hs m List.mem_cons_self) hA hd) (fun x hx => hs x (List.mem_cons_of_mem _ hx)) h
+
+/-! # Any mixture of upper and lower case (audit C18-4) -/
+
+/-- `FrameID.from_value` lower-cases: a frame name is read through its lower-case form only -/
+theorem frameOfArg_case_insensitive (s t : String) (h : s.toLower = t.toLower) :
+    frameOfArg (.str s) = frameOfArg (.str t) := by
+  simp only [frameOfArg, frameFromValue, h]
+
+/-- every spelling whose lower-case form is the value of a frame names that frame ("Map", "Base_Link", "mAP", …) -/
+theorem frameOfArg_any_case : ∀ p ∈ Gen.frameID, ∀ s : String, s.toLower = p.2 → frameOfArg (.str s) = .ok p.1 := by
+  intro p hp s hs
+  rw [frameOfArg_case_insensitive s p.2 (by rw [hs, C20.frame_values_lower p hp])]
+  simp [frameOfArg, C20.roundtrip_frame p hp]
+
+/-- all access paths give the same answer for two spellings of a key that agree after lower-casing -/
+theorem key_case_irrelevant (d : List HM) (s s' t t' : String) (hs : s.toLower = s'.toLower) (ht : t.toLower = t'.toLower)
+    (x : TArg) :
+    dictTransform d (.str s) (.str t) x = dictTransform d (.str s') (.str t') x ∧
+    dictGet d (.str s) (.str t) = dictGet d (.str s') (.str t') ∧
+    dictGetItem d (.str s) (.str t) = dictGetItem d (.str s') (.str t') ∧
+    dictContains d (.str s) (.str t) = dictContains d (.str s') (.str t') := by
+  have e : transformKey (.str s) (.str t) = transformKey (.str s') (.str t') := by
+    simp only [transformKey, frameOfArg_case_insensitive s s' hs, frameOfArg_case_insensitive t t' ht]
+  simp only [dictTransform, dictGet, dictGetItem, dictContains, e, and_self]
+
+/-- a key written in any case mixture is the member key -/
+theorem key_any_case : ∀ p ∈ Gen.frameID, ∀ r ∈ Gen.frameID, ∀ s t : String, s.toLower = p.2 → t.toLower = r.2 →
+    ∀ (d : List HM) (x : TArg), dictTransform d (.str s) (.str t) x = dictTransform d (.member p.1) (.member r.1) x := by
+  intro p hp r hr s t hs ht d x
+  have h1 : transformKey (.str s) (.str t) = .ok (p.1, r.1) := by
+    simp only [transformKey, frameOfArg_any_case p hp s hs, frameOfArg_any_case r hr t ht, bind, Except.bind]
+    rfl
+  have h2 : transformKey (.member p.1) (.member r.1) = .ok (p.1, r.1) := rfl
+  simp only [dictTransform, h1, h2]
+
+/-! # A matrix stored under a key that is not its own label (audit C18-5)
+
+`reg[key] = value` does not compare `key` with `value.src/dst`.  `KReg` keeps key and matrix apart; on registries built by the
+constructor it is the model used so far (`kTransform_ofList`), and after `reg[k] = m` the key `k` is answered with `m` —
+whose own labels play no part — and the reversed key with `inv m`. -/
+
+theorem kTransform_ofList (d : List HM) (ks kd : Arg) (x : TArg) :
+    kTransform (KReg.ofList d) ks kd x = dictTransform d ks kd x := by
+  simp only [kTransform, dictTransform, lookupK_ofList]
+  rfl
+
+theorem kTransform_after_set (d : KReg) (k : String × String) (m : HM) (ks kd : Arg) (x : TArg)
+    (hk : transformKey ks kd = .ok k) (hne : k.1 ≠ k.2) : kTransform (kSet d k m) ks kd x = m.transform x := by
+  have e : lookupK (kSet d k m) (k.1, k.2) = some m := by rw [lookupK_set]; simp
+  simp only [kTransform, hk, bind, Except.bind, hne, if_false, e]
+
+theorem kTransform_after_set_reverse (d : KReg) (s t : String) (m : HM) (ks kd : Arg) (x : TArg)
+    (hk : transformKey ks kd = .ok (s, t)) (hne : s ≠ t) (hnone : lookupK d (s, t) = none) :
+    kTransform (kSet d (t, s) m) ks kd x = (inv m).transform x := by
+  have hts : (t, s) ≠ (s, t) := fun e => hne (congrArg Prod.snd e)
+  have e1 : lookupK (kSet d (t, s) m) (s, t) = none := by rw [lookupK_set, if_neg hts]; exact hnone
+  have e2 : lookupK (kSet d (t, s) m) (t, s) = some m := by rw [lookupK_set]; simp
+  simp only [kTransform, hk, bind, Except.bind, hne, if_false, e1, e2]
+
+/-! ## instances -/
+
+/-- the contract's hypotheses and conclusions on concrete 3-D rational unit quaternions, both signs, all four branches of
+`trace_method` (pivot w, x, y, z) -/
+example : (⟨1/5, 2/5, 2/5, 4/5⟩ : Quat).normSq = 1 ∧ (⟨-2/7, -3/7, -6/7, 0⟩ : Quat).normSq = 1 ∧
+    (⟨0, 3/5, 4/5, 0⟩ : Quat).normSq = 1 ∧ (⟨2/3, -2/3, 1/3, 0⟩ : Quat).normSq = 1 := by decide +kernel
+example : (⟨0, 0, 0, 1⟩ : Quat).SignEq ⟨0, 0, 0, -1⟩ ∧ ¬ (⟨0, 0, 0, 1⟩ : Quat).SignEq ⟨0, 0, 1, 0⟩ ∧
+    rotMat ⟨0, 0, 0, 1⟩ = rotMat ⟨0, 0, 0, -1⟩ := by decide +kernel
+/-- `trace_method` evaluated: pivot w with w < 0 (sign flipped), pivot w, pivot z, pivot y -/
+example : extractTrace Rat.sqrt (rotMat ⟨-2/7, -3/7, -6/7, 0⟩) = ⟨2/7, 3/7, 6/7, 0⟩ ∧
+    extractTrace Rat.sqrt (rotMat ⟨1/5, 2/5, 2/5, 4/5⟩) = ⟨1/5, 2/5, 2/5, 4/5⟩ ∧
+    extractTrace Rat.sqrt (rotMat ⟨0, 0, 0, -1⟩) = ⟨0, 0, 0, 1⟩ ∧
+    extractTrace Rat.sqrt (rotMat ⟨0, -3/5, 4/5, 0⟩) = ⟨0, -3/5, 4/5, 0⟩ := by decide +kernel
+/-- the code-level registry on a concrete case: inverse fallback with a negative-w pose; sign-equal, NOT equal -/
+example : ResSignEq (dictTransformX (extractTrace Rat.sqrt) (extractTrace Rat.sqrt) [exA, exB] (.str "map") (.str "base_link")
+      (.pose ⟨1, 0, 0⟩ exB.rot))
+    (dictTransform [exA, exB] (.str "map") (.str "base_link") (.pose ⟨1, 0, 0⟩ exB.rot)) ∧
+    dictTransformX (extractTrace Rat.sqrt) (extractTrace Rat.sqrt) [exA, exB] (.str "map") (.str "base_link")
+      (.pose ⟨1, 0, 0⟩ exB.rot) ≠ dictTransform [exA, exB] (.str "map") (.str "base_link") (.pose ⟨1, 0, 0⟩ exB.rot) ∧
+    (TArg.pose ⟨1, 0, 0⟩ exB.rot).Rigid := by decide +kernel
+/-- the defective closed form on the same registry with a yaw-π ego pose: not even sign-equal -/
+example : ¬ ResSignEq (dictTransformX (extractG Rat.sqrt) (extractG Rat.sqrt)
+      [⟨⟨1, 2, 0⟩, ⟨0, 0, 0, 1⟩, "BASE_LINK", "MAP"⟩] (.str "map") (.str "base_link") (.pose ⟨1, 0, 0⟩ ⟨1, 0, 0, 0⟩))
+    (dictTransform [⟨⟨1, 2, 0⟩, ⟨0, 0, 0, 1⟩, "BASE_LINK", "MAP"⟩] (.str "map") (.str "base_link")
+      (.pose ⟨1, 0, 0⟩ ⟨1, 0, 0, 0⟩)) := by decide +kernel
+/-- three steps: cam → base_link → map → base_link → map -/
+example : WellLabelled exB.dst [exA, inv exA, exA'] ∧ chainDst exB.dst [exA, inv exA, exA'] = "MAP" ∧
+    ¬ WellLabelled exB.dst [exA, exA'] := by decide +kernel
+example : ∃ C, [exA, inv exA, exA'].foldlM (fun acc m => dot m acc) exB = .ok C ∧ C.src = "CAM_FRONT" ∧ C.dst = "MAP" :=
+  chain_ok exB _ (by decide +kernel)
+example : ("Base_Link" : String).toLower = "base_link" ∧ ("BASE_LINK", "base_link") ∈ Gen.frameID ∧
+    ("mAP" : String).toLower = "map" ∧ ("Map" : String).toLower = "map" := by decide +kernel
+/-- a matrix labelled base_link → map stored under (map, cam_front): the key decides, not the label -/
+example : kTransform (kSet (KReg.ofList [exB]) ("MAP", "CAM_FRONT") exA) (.str "map") (.str "cam_front") (.pos ⟨1, 0, 0⟩)
+    = exA.transform (.pos ⟨1, 0, 0⟩) ∧ exA.key ≠ ("MAP", "CAM_FRONT") := by decide +kernel
 
 end PEval.C18
